@@ -276,6 +276,10 @@ def parse_contract_text(text, fname='?'):
         # strip trailing line comments introduced by ' // '
         st = re.sub(r'\s//\s.*$', '', st)
         w = st.split(None, 1)
+        mq_ = re.match(r'^return@L(\d+)$', w[0])
+        if mq_:
+            # return@Lk [label] expr: only the return statements inside loop k
+            w = ['return', '@L%s %s' % (mq_.group(1), w[1] if len(w) > 1 else '')]
         if w[0] in KEYWORDS:
             clauses.append([w[0], w[1] if len(w) > 1 else ''])
         else:
@@ -348,7 +352,13 @@ def parse_contract_text(text, fname='?'):
                 cur.setdefault('sends', []).append((m.group(1), lab, parse_expr(r), r))
                 curloop = None
             elif kw == 'return':
+                lq_ = None
+                mq_ = re.match(r'^\s*@L(\d+)\s+(.*)$', rest, re.S)
+                if mq_:
+                    lq_, rest = int(mq_.group(1)), mq_.group(2)
                 lab, r = _label(rest)
+                if lq_ is not None:
+                    lab = '%s@L%d' % (lab or '0', lq_)
                 cur.setdefault('returns', []).append((lab, parse_expr(r), r))
                 curloop = None
             elif kw == 'ghostset':
